@@ -283,10 +283,11 @@ namespace Givaro {
         r = (int64_t)res;
         return q;
 #else
+        const bool aneg = (a<0); // q may be the same object as a
         r = (int64_t)mpz_tdiv_q_ui( (mpz_ptr)&(q.gmp_rep),
                                     (mpz_srcptr)&(a.gmp_rep), std::abs(b));
 
-        if (a<0 && r) {
+        if (aneg && r) {
             // :GMPUintTDiv
             subin(q,(int64_t)1) ;
             r = std::abs(b) - r ;
@@ -305,10 +306,11 @@ namespace Givaro {
         r = (uint64_t)res; // divmod already corrects when a<0
         return q;
 #else
+        const bool aneg = (a<0); // q may be the same object as a
         r = mpz_tdiv_q_ui( (mpz_ptr)&(q.gmp_rep),
                            (mpz_srcptr)&(a.gmp_rep), b);
 
-        if (a<0 && r) {
+        if (aneg && r) {
             subin(q,(int64_t)1) ;
             // :GMPUintTDiv The GMP documentation specifies that:
             // 'For the ui variants (...) tdiv and cdiv the remainder can be negative,
